@@ -184,15 +184,15 @@ PROPS = {
                         'spawnProcess, pipe draining, process groups, the kill-after-timeout thread', 'released (background) lanes'],
     },
     'C17': {
-        'units': ['ninja_lex', 'ninja_scope', 'shellesc', 'ninja_eval', 'ninja_parser'],
+        'units': ['ninja_lex', 'ninja_scope', 'shellesc', 'ninja_eval', 'ninja_parser', 'ninja_include'],
         'design_ref': 'DESIGN.md section 4, C17',
         'claim': 'Ninja lexer: a keyword kind is produced exactly when the token bytes are the whole keyword, every byte value '
                  '0x00-0xFF is returned as itself (end of file only at the true end), identifier-specific mode never yields keywords; '
                  'lookupBuildParameterImpl: a build-level binding shadows everything whatever its value, else the rule-level template is evaluated in the '
                  'context of this build statement, else the enclosing scope is asked under the same name; $in/$in_newline are the explicit inputs '
                  'separated by space/newline, $out all outputs, shell-quoted exactly when evaluating "command"; BOUNDED (not counted): '
-                 'a shell-escaped path of up to 3 (quick) bytes, read by a model of POSIX sh word syntax, is exactly one word equal to the path; evalString in seven steps (literal run, piece, `$` at the end, `$`+newline, single-character escapes, ${name}, $name): every byte read lies inside the string, every step that does not stop the scan advances, a literal piece is a maximal `$`-free run, only `$ ` `$:` `$$` are character escapes, the name looked up is exactly the text between `${` and `}` (identifier characters) or the maximal run of simple identifier characters after `$`',
-        'not_decided': ['agreement of variable evaluation with Ninja itself (needs Ninja as oracle)', 'the composition of the evalString steps over a whole string, include/subninja scoping', 'that the parser accepts exactly the Ninja grammar (only termination, token consumption and lexer mode are decided)'],
+                 'a shell-escaped path of up to 3 (quick) bytes, read by a model of POSIX sh word syntax, is exactly one word equal to the path; evalString in seven steps (literal run, piece, `$` at the end, `$`+newline, single-character escapes, ${name}, $name): every byte read lies inside the string, every step that does not stop the scan advances, a literal piece is a maximal `$`-free run, only `$ ` `$:` `$$` are character escapes, the name looked up is exactly the text between `${` and `}` (identifier characters) or the maximal run of simple identifier characters after `$`; include / subninja (actOnIncludeDecl): the path expression is evaluated in the current scope, `include` parses the file in the current scope, `subninja` in one new scope whose parent is the current scope',
+        'not_decided': ['agreement of variable evaluation with Ninja itself (needs Ninja as oracle)', 'the composition of the evalString steps over a whole string', 'that the parser accepts exactly the Ninja grammar (only termination, token consumption and lexer mode are decided)'],
     },
     'C18': {
         'units': ['ninja_valid', 'ninjadeps'],
@@ -205,13 +205,13 @@ PROPS = {
                         'propagation (closures over the build context)', 'decoding of the stored value (assumed pure)'],
     },
     'C19': {
-        'units': ['mkdeps', 'depinfo', 'ninja_lex', 'buildfile', 'ninja_scope', 'ninja_eval', 'ninja_parser'],
+        'units': ['mkdeps', 'depinfo', 'ninja_lex', 'buildfile', 'ninja_scope', 'ninja_eval', 'ninja_parser', 'ninja_include'],
         'safety': ['mkdeps', 'depinfo', 'ninja_lex'],
         'design_ref': 'DESIGN.md section 4, C19',
         'claim': 'every dereference in the hand-written parsers is inside the supplied buffer (no terminator assumed), '
                  'every loop terminates (decreases clauses), cursors stay in [begin,end]; Ninja lexer tokens tile the buffer, only blanks are skipped, '
-                 'EndOfFile only at the true end, every other token consumes at least one byte; the build file loader (parseRootNode, parseClientMapping, parseToolsMapping, parseTargetsMapping, parseNodesMapping, parseCommandsMapping) over an arbitrary YAML document (every node reached is of arbitrary kind): a node is down-cast to ScalarNode / MappingNode / SequenceNode only after the matching kind test, a mapping iterator is dereferenced and advanced only before the end, a node text is read only of a scalar; the Ninja parser (all 15 functions of Parser.cpp, the lexer as the contract proved in ninja_lex): every loop and every top-level declaration consumes input (measure: bytes not yet lexed plus one while the look-ahead is not EndOfFile), so parse() terminates with the input used up; the lexer is back in mode None after every declaration',
-        'not_decided': ['llvm::yaml itself (scanner / parser), the string handling of the loader', 'the rest of ManifestLoader (include cycles; recursion between FILE-level bindings is not possible: they are evaluated when bound)', 'BinaryDecoder bounds on stored values'],
+                 'EndOfFile only at the true end, every other token consumes at least one byte; the build file loader (parseRootNode, parseClientMapping, parseToolsMapping, parseTargetsMapping, parseNodesMapping, parseCommandsMapping) over an arbitrary YAML document (every node reached is of arbitrary kind): a node is down-cast to ScalarNode / MappingNode / SequenceNode only after the matching kind test, a mapping iterator is dereferenced and advanced only before the end, a node text is read only of a scalar; the Ninja parser (all 15 functions of Parser.cpp, the lexer as the contract proved in ninja_lex): every loop and every top-level declaration consumes input (measure: bytes not yet lexed plus one while the look-ahead is not EndOfFile), so parse() terminates with the input used up; the lexer is back in mode None after every declaration; include / subninja (enterFile, actOnIncludeDecl, exitCurrentFile): a file whose absolute path is already on the include stack is reported and not entered again, a file is read exactly once per include and parsed exactly when it was entered, the files being loaded stay pairwise distinct (so the nesting depth is bounded by the number of files)',
+        'not_decided': ['llvm::yaml itself (scanner / parser), the string handling of the loader', 'the other ManifestLoader actions (rule / pool / default declarations); two different paths naming one file (symbolic links) are different files to the loader; recursion between FILE-level bindings is not possible: they are evaluated when bound', 'BinaryDecoder bounds on stored values'],
     },
     'C20': {
         'units': ['capi', 'capi_cb'],
